@@ -269,7 +269,14 @@ func (s *state) visitSoyFile(node *ast.SoyFileNode) {
 	s.jsln("// This file was automatically generated from ", node.Name, ".")
 	s.jsln("// Please don't edit this file by hand.")
 	s.jsln("")
-	s.visitChildren(node)
+	for _, child := range node.Children() {
+		// (text between the templates of a file belongs to no template: it has
+		// no buffer to be appended to.)
+		if _, ok := child.(*ast.RawTextNode); ok {
+			continue
+		}
+		s.walk(child)
+	}
 }
 
 func (s *state) visitChildren(parent ast.ParentNode) {
